@@ -6,7 +6,9 @@ R11a  every deserialisation of a server-written cache is inside a try that catch
 Why that suffices for every prefix: a pickle stream ends with its only STOP opcode, so
 no proper prefix (nor a zero-filled file) unpickles successfully - the load either
 raises or returns the complete object; a dbm/shelve file that cannot be opened raises.
-Not decided: corruption that is not a prefix; lazily detected damage inside a dbm backend.
+R11b  a dbm/shelve store is read completely inside that try (copied into memory) and not kept: a store that is
+      damaged inside can open without error and only fail at a look-up
+Not decided: corruption that is not a prefix.
 """
 
 from __future__ import annotations
@@ -49,10 +51,47 @@ def check(ctx, rep):
     rep.rule("R11a", "each cache load is inside a try catching every failure class of a truncated file; the failure path "
              "regenerates and does not mark the listing as cached", floor=2)
     rep.assume("CPython pickle framing: a proper prefix of a pickle never loads successfully (STOP is the last opcode)")
+    rep.rule("R11b", "a dbm/shelve index is read completely under the guard and the store itself is not kept (look-ups in a damaged store fail lazily)", floor=1)
     sites = deser_sites(ctx, eff)
     for s, H in sites:
         f = s.func
         rep.analysed(f.qualname)
+        if s.target.name in ("shelve.open", "dbm.open"):
+            from ..structure import parents
+
+            pm = parents(f.node)
+            par = pm.get(s.call)
+            kept = None
+            holder = None
+            if isinstance(par, ast.withitem):
+                holder = par.optional_vars.id if isinstance(par.optional_vars, ast.Name) else None
+            elif isinstance(par, ast.Assign) and par.value is s.call:
+                tg = par.targets[0]
+                if isinstance(tg, ast.Name):
+                    holder = tg.id
+                else:
+                    kept = f"`{norm(tg)} = {norm(s.call)[:40]}`"
+            elif isinstance(par, ast.Return):
+                kept = "it is returned to the caller"
+            elif isinstance(par, ast.Call) and dotted(par.func) in ("dict", "list", "tuple", "sorted"):
+                pass
+            else:
+                kept = f"`{norm(par)[:50]}`"
+            if holder is not None and kept is None:
+                for n in ast.walk(f.node):
+                    if isinstance(n, ast.Assign) and isinstance(n.value, ast.Name) and n.value.id == holder and not all(isinstance(t, ast.Name) for t in n.targets):
+                        kept = f"`{norm(n)[:50]}`"
+                    if isinstance(n, ast.Return) and isinstance(n.value, ast.Name) and n.value.id == holder:
+                        kept = "it is returned to the caller"
+                # every read of the store happens under the same guard as the open
+                tries_open = {id(t) for t in enclosing_tries(f.node, s.call)}
+                for n in ast.walk(f.node):
+                    if isinstance(n, ast.Name) and n.id == holder and isinstance(n.ctx, ast.Load):
+                        if not ({id(t) for t in enclosing_tries(f.node, n)} & tries_open) and tries_open:
+                            kept = f"it is read outside the guard (line {n.lineno})"
+            rep.add("R11b", f"{f.qualname}: {norm(s.call)[:40]} is consumed under the guard", kept is None, ctx.where(f, s.call),
+                    f"the opened store is kept ({kept}): a store that is cut short or zero-filled inside opens without error and fails at the first "
+                    "look-up, outside the try that treats a damaged cache as missing" if kept else "", key=f"R11b|{f.qualname}")
         problems = []
         tries = enclosing_tries(f.node, s.call)
         missing = [e for e in REQUIRED if not any(catches(h, e) for tr in tries for h in tr.handlers)]
